@@ -34,6 +34,7 @@ type GsfaWriter struct {
 	cancel               context.CancelFunc
 	exiting              *atomic.Bool
 	fullBufferWriterDone chan struct{}
+	drainRequests        chan chan struct{} // asks the full buffer writer to flush everything it holds
 }
 
 // NewGsfaWriter creates or opens an existing index in WRITE mode.
@@ -68,6 +69,7 @@ func NewGsfaWriter(
 		ctx:                  ctx,
 		cancel:               cancel,
 		fullBufferWriterDone: make(chan struct{}),
+		drainRequests:        make(chan chan struct{}),
 		indexRootDir:         indexRootDir,
 		exiting:              new(atomic.Bool),
 	}
@@ -104,7 +106,31 @@ func NewGsfaWriter(
 func (a *GsfaWriter) fullBufferWriter() {
 	numReadFromChan := uint64(0)
 	howManyBuffersToFlushConcurrently := 256
-	tmpBuf := make(linkedlog.KeyToOffsetAndSizeAndBlocktimeSlice, howManyBuffersToFlushConcurrently)
+	tmpBuf := make(linkedlog.KeyToOffsetAndSizeAndBlocktimeSlice, 0, howManyBuffersToFlushConcurrently)
+
+	// flushTmpBuf writes the parked buffers to the linked log, in arrival order.
+	flushTmpBuf := func() {
+		for _, buf := range tmpBuf {
+			if len(buf.Values) == 0 {
+				continue
+			}
+			// Write the buffer to the linked log.
+			klog.V(5).Infof("Flushing %d transactions for key %s", len(buf.Values), buf.Key)
+			if err := a.flushKVs(buf); err != nil {
+				klog.Errorf("Error while flushing transactions for key %s: %v", buf.Key, err)
+			}
+		}
+		tmpBuf = tmpBuf[:0]
+	}
+	// park keeps the buffer for a later flush; buffers of the same key are never
+	// parked together so that they reach the linked log in the order they arrived.
+	park := func(buffer linkedlog.KeyToOffsetAndSizeAndBlocktime) {
+		numReadFromChan++
+		if len(tmpBuf) >= howManyBuffersToFlushConcurrently || tmpBuf.Has(buffer.Key) {
+			flushTmpBuf()
+		}
+		tmpBuf = append(tmpBuf, buffer)
+	}
 
 	for {
 		// fmt.Println("numReadFromChan", numReadFromChan, "len(a.fullBufferWriterChan)", len(a.fullBufferWriterChan), "a.exiting.Load()", a.exiting.Load())
@@ -112,33 +138,35 @@ func (a *GsfaWriter) fullBufferWriter() {
 			klog.Infof("remaining %d buffers to flush", len(a.fullBufferWriterChan))
 		}
 		if a.exiting.Load() && len(a.fullBufferWriterChan) == 0 {
+			flushTmpBuf()
 			a.fullBufferWriterDone <- struct{}{}
 			return // exit
 		}
 		select {
 		case buffer := <-a.fullBufferWriterChan:
-			{
-				numReadFromChan++
-				has := tmpBuf.Has(buffer.Key)
-				if len(tmpBuf) == howManyBuffersToFlushConcurrently || has {
-					for _, buf := range tmpBuf {
-						if len(buf.Values) == 0 {
-							continue
-						}
-						// Write the buffer to the linked log.
-						klog.V(5).Infof("Flushing %d transactions for key %s", len(buf.Values), buf.Key)
-						if err := a.flushKVs(buf); err != nil {
-							klog.Errorf("Error while flushing transactions for key %s: %v", buf.Key, err)
-						}
-					}
-					tmpBuf = make(linkedlog.KeyToOffsetAndSizeAndBlocktimeSlice, howManyBuffersToFlushConcurrently)
-				}
-				tmpBuf = append(tmpBuf, buffer)
+			park(buffer)
+		case done := <-a.drainRequests:
+			// Flush everything that was handed over so far (the requester holds a.mu,
+			// so no new buffer can arrive meanwhile).
+			for len(a.fullBufferWriterChan) > 0 {
+				park(<-a.fullBufferWriterChan)
 			}
+			flushTmpBuf()
+			close(done)
 		case <-time.After(1 * time.Second):
 			klog.V(5).Infof("Read %d buffers from channel", numReadFromChan)
 		}
 	}
+}
+
+// drainFullBuffers blocks until the full buffer writer has written every full
+// batch it received so far. Batches of a key must reach the linked log in the
+// order they were pushed, so this must happen before a (newer) partial batch of
+// any key is flushed synchronously. Must be called with a.mu held.
+func (a *GsfaWriter) drainFullBuffers() {
+	done := make(chan struct{})
+	a.drainRequests <- done
+	<-done
 }
 
 func (a *GsfaWriter) Push(
@@ -168,6 +196,7 @@ func (a *GsfaWriter) Push(
 	if slot%500 == 0 && a.accum.Len() > 100_000 {
 		// flush all
 		klog.V(4).Infof("Flushing all %d keys", a.accum.Len())
+		a.drainFullBuffers() // older full batches first
 
 		var keys solana.PublicKeySlice = a.accum.Keys()
 		keys.Sort()
@@ -230,6 +259,7 @@ const itemsPerBatch = 1000
 func (a *GsfaWriter) Close() error {
 	a.mu.Lock()
 	defer a.mu.Unlock()
+	a.drainFullBuffers() // older full batches first, then the remainders
 	if err := a.flushAccum(a.accum); err != nil {
 		return err
 	}
